@@ -97,23 +97,23 @@ def prop_string(case, res, single=False):
     ctx = 'sep=%s' % ('yes' if sep else 'no')
     i1 = core.out(m.info, s, sep)
     if i1[0] != 'ok':
-        res.violation('string|info-refuses:%s|%s|%s' % (i1[1], kinds, ctx), 'string', case, {'s': s, 'out': [str(t) for t in i1]})
+        res.violation('string|info-refuses:%s|%s' % (i1[1], kinds), 'string', case, {'s': s, 'out': [str(t) for t in i1]})
         return
     v = core.out(m.validate, s, sep)
     if v[0] != 'ok':
-        res.violation('string|validate-refuses:%s|%s|%s' % (v[1], kinds, ctx), 'string', case, {'s': s, 'out': [str(t) for t in v]})
+        res.violation('string|validate-refuses:%s|%s' % (v[1], kinds), 'string', case, {'s': s, 'out': [str(t) for t in v]})
         return
     i2 = core.out(m.info, v[1], sep)
     if i2 != i1:
         diff = sorted(k for k in set(i1[1]) | set(i2[1] if i2[0] == 'ok' else ()) if i2[0] != 'ok' or i1[1].get(k) != i2[1].get(k))
         canon_items = sorted(items, key=lambda it: (bool(gs1model.ais()[it[0]].get('fnc1')), it[0]))
         types = kinds if len(items) == 1 else culprits(canon_items, sep)
-        res.violation('string|validated-decodes-differently|%s|%s' % (types, ctx), 'string', case,
+        res.violation('string|validated-decodes-differently|%s' % (types,), 'string', case,
                       {'s': s, 'validated': v[1], 'info(s)': repr(i1[1])[:200], 'info(validated)': repr(i2)[:200]})
     v2 = core.out(m.validate, v[1], sep)
     if v2 != v:
         canon_items = sorted(items, key=lambda it: (bool(gs1model.ais()[it[0]].get('fnc1')), it[0]))
-        res.violation('string|validate-not-fixed-point|%s|%s' % (kinds if len(items) == 1 else culprits(canon_items, sep), ctx), 'string', case, {'s': s, 'first': v[1], 'second': [str(t) for t in v2]})
+        res.violation('string|validate-not-fixed-point|%s' % (kinds if len(items) == 1 else culprits(canon_items, sep),), 'string', case, {'s': s, 'first': v[1], 'second': [str(t) for t in v2]})
     if case.get('vals') is not None and i1[1] != dict((k, core.dec(x)) for k, x in case['vals'].items()):
         res.hist['diagnostic:info(s)!=generating-mapping'] += 1
     if res.evals % 53 == 1:
@@ -162,7 +162,7 @@ def prop_mapping(case, res, single=False):
     e = core.out(m.encode, d, sep, parens)
     kinds = _fmt(list(d)[0]) if len(d) == 1 else '+'.join(sorted(set(a[k]['type'] for k in d)))
     if e[0] != 'ok':
-        res.violation('mapping|encode-refuses:%s|%s|%s' % (e[1], kinds, ctx), 'mapping', case, {'map': repr(d)[:200], 'out': [str(t) for t in e]})
+        res.violation('mapping|encode-refuses:%s|%s' % (e[1], kinds), 'mapping', case, {'map': repr(d)[:200], 'out': [str(t) for t in e]})
         return
     b = core.out(m.info, e[1], sep)
     if b != ('ok', d):
@@ -176,7 +176,7 @@ def prop_mapping(case, res, single=False):
             types = '+'.join(sorted(set(a.get(k, {}).get('type', '?') for k in diff)))
         else:
             types = '+'.join(sorted(set('padded-' + a[k]['type'] for k in var[:-1]))) or 'no-padding'
-        res.violation('mapping|roundtrip-differs:%s|%s|%s' % (b[0] if b[0] != 'ok' else 'value', types, ctx), 'mapping', case,
+        res.violation('mapping|roundtrip-differs:%s|%s' % (b[0] if b[0] != 'ok' else 'value', types), 'mapping', case,
                       {'map': repr(d)[:200], 'encoded': e[1], 'decoded': repr(b)[:200]})
     if res.evals % 53 == 1:
         res.sample({'mapping': repr(d)[:160], 'separator': sep, 'parentheses': parens, 'encoded': e[1]})
